@@ -90,6 +90,7 @@ type vcReplayer struct {
 	late      bool
 	stepT0    time.Time // when the current event was injected
 	memChecks int
+	races     int
 	// forced interleavings of concurrent failure reports (two store updates of one record)
 	gatedSteps, gateHits int
 }
@@ -529,6 +530,13 @@ func (r *vcReplayer) run() string {
 			if !seen || !known {
 				r.accT[s.B] = [2]time.Time{t0, time.Now()}
 			}
+		case "Race":
+			r.accT[s.B] = [2]time.Time{t0, t0}
+			r.accT[s.D] = [2]time.Time{t0, t0}
+			err = w.race(s.B, s.D)
+			r.accT[s.B] = [2]time.Time{t0, time.Now()}
+			r.accT[s.D] = [2]time.Time{t0, time.Now()}
+			r.races++
 		case "PeerUp":
 			err = w.peerUp(s.P)
 		case "PeerDown":
@@ -978,6 +986,7 @@ func TestVerifCoreReplay(t *testing.T) {
 			nsteps = r.steps
 			mu.Lock()
 			st["routing_memory_comparisons"] += r.memChecks
+			st["races"] += r.races
 			st["gated_steps"] += r.gatedSteps
 			st["gate_forced_overlaps"] += r.gateHits
 			mu.Unlock()
